@@ -64,7 +64,17 @@ func (g *gettyClientHandler) OnOpen(session getty.Session) error {
 			ApplicationId:           conf.ApplicationID,
 			TransactionServiceGroup: conf.TxServiceGroup,
 		}}
-		err := GetGettyRemotingClient().SendAsyncRequest(request)
+		// announce the transaction manager on the session that has just been opened,
+		// not on whichever session the load balancer would pick
+		client := GetGettyRemotingClient()
+		rpcMessage := message.RpcMessage{
+			ID:         int32(client.idGenerator.Inc()),
+			Type:       message.GettyRequestTypeRequestOneway,
+			Codec:      byte(codec.CodecTypeSeata),
+			Compressor: 0,
+			Body:       request,
+		}
+		err := client.gettyRemoting.SendAsync(rpcMessage, session, client.asyncCallback)
 		if err != nil {
 			log.Errorf("OnOpen error: {%#v}", err.Error())
 			sessionManager.releaseSession(session)
